@@ -59,7 +59,7 @@ def scenario(name, prep, tmp_on_shm, select):
     log("[%s] %d tracked mutations in the uninterrupted build, %d selected as kill points" % (name, len(ops), len(ks)))
     def one(k):
         if dl.expired(): return None
-        root = os.path.join(g.root, "k-%s-%d" % (name, k)); fast_clone(S0, root)
+        root = os.path.join(g.root, "k-%s-%d" % (name, k)); link_clone(S0, root)
         lp = os.path.join(g.root, "klog-%s-%d" % (name, k))
         p, tmp = run_build(root, "k%d" % k, k=k, logpath=lp)
         lines = read(lp).split("\n") if os.path.exists(lp) else []
